@@ -136,6 +136,9 @@ let rec draws cap n : int list list =
 
 let n_elems = function Insert _ -> 1 | InsertRange (l, _) -> List.length l | _ -> 0
 
+(* rr: the draws inferred for evicting single inserts, per case (C15: spread of the victims) *)
+let inferred : (int list) ref = ref []
+
 (* impl: the harness output lines of this case, in order *)
 let run_case ~dump (c : case) (impl : string array) : (int * string * string * string) option * int =
   let st0 = zc_init (kind_of_int c.kind) (config_of c) in
@@ -171,7 +174,18 @@ let run_case ~dump (c : case) (impl : string array) : (int * string * string * s
                then ok := Some (st', m)
              end) cands;
          (match !ok, !first with
-          | Some (st', m), _ -> if dump then Printf.printf "  M %s\n" m; st := st'
+          | Some (st', m), _ -> if dump then Printf.printf "  M %s\n" m;
+            (* a single insert that evicted: size stayed at capacity and the key was new; the draw is the first candidate that matched *)
+            (match o with
+             | Insert (_, k, _, _) when int_of_nat (zc_size !st) = c.cap && zc_view !st znow k = None && m = "b1" ->
+               let rec find_d = function
+                 | [] -> ()
+                 | d :: r -> let (st2, r2) = zc_step !st o znow (List.map nat_of_int d) in
+                   if fmt_ret r2 = get !i && (match next_probe st2 with None -> true | Some p -> p = get (!i + 1))
+                   then (match d with x :: _ -> inferred := x :: !inferred | [] -> ()) else find_d r in
+               find_d cands
+             | _ -> ());
+            st := st'
           | None, Some (st', m) ->
             if m <> get !i then result := Some (!i, raw, m, get !i)
             else begin
@@ -309,7 +323,10 @@ let () =
         (* the trailing "end live<k>" line: every value ended with the container *)
         let endl = if Array.length im > n then im.(n) else "<missing>" in
         match res with
-        | None when endl = "end live0" || (wbm && endl = "end") -> incr nok; Printf.printf "OK %s %d\n" c.id n
+        | None when endl = "end live0" || (wbm && endl = "end") -> incr nok; Printf.printf "OK %s %d\n" c.id n;
+          if c.kind = 3 && !inferred <> [] then
+            Printf.printf "DRAWS %s cap=%d %s\n" c.id c.cap (String.concat "," (List.map string_of_int (List.rev !inferred)));
+          inferred := []
         | None -> incr ndiff; Printf.printf "DIFF %s %d | end | model=end live0 | impl=%s\n" c.id n endl
         | Some (i, raw, m, g) -> incr ndiff;
           Printf.printf "DIFF %s %d | %s | model=%s | impl=%s\n" c.id i raw m g) cases;
